@@ -4,6 +4,7 @@ from __future__ import annotations
 import ast
 
 from ..astx import un, NoValue, Poly
+from ..core import Unknown as _U
 from ..core import rule, fixture_for, Unknown
 from ..products import grade
 from ..surface import operator_registry, class_surface
@@ -130,7 +131,69 @@ DOCUMENTED = {  # README operator table: method / dunder -> registry operator, o
 }
 
 
+def _spec_unary(op, coeffs):
+    sgn = {"reverse": INVOLUTION_SIGN["reverse"], "involute": INVOLUTION_SIGN["involute"], "conjugate": INVOLUTION_SIGN["conjugate"],
+           "neg": lambda k: -1}[op]
+    return {k: v * Poly.const(sgn(grade(k))) for k, v in coeffs.items()}
+
+
+def _check_python_bodied_method(ctx, repo, c, meth, op, order, entry):
+    """A documented method with a Python body (shortcuts, special cases): abstractly interpret it on homogeneous
+    operands of every grade and on a mixed operand, with the algebra's operators replaced by the checker's own
+    specification, and compare with applying the documented operator directly."""
+    from ..absint import Obj, PyFunc, Unk
+    from ..products import PV, poly_of_value
+    from ..symenv import make_interp, rep_algebra, mv_obj
+    if not isinstance(entry.node, ast.FunctionDef):
+        raise Unknown(c, "is neither a forwarding method, an alias nor a plain function", entry.node)
+    d = 7
+    operands = [tuple(k for k in range(2 ** d) if grade(k) == g)[:3] for g in range(d + 1)] + [(0, 3, 21, 127, 64, 97)]
+
+    def mk(alg, keys, prefix):
+        return mv_obj(alg, tuple(keys), [PV(Poly.atom(f"{prefix}{k}"), "atom") for k in keys])
+
+    def coeffs(o):
+        if isinstance(o, Obj) and o.kind == "MultiVector" and "_keys" in o.attrs:
+            vals = [poly_of_value(v) for v in o.attrs["_values"]]
+            if all(v is not None for v in vals):
+                return {k: v for k, v in zip(o.attrs["_keys"], vals) if not v.is_zero()}
+        return None
+    for keys in operands:
+        alg = rep_algebra(d)
+
+        def opattr(name, alg=alg):
+            def apply(*ops):
+                if name in ("reverse", "involute", "conjugate", "neg") and len(ops) == 1 and coeffs(ops[0]) is not None:
+                    res = _spec_unary(name, coeffs(ops[0]))
+                    return mv_obj(alg, tuple(res), [PV(v, "sum") for v in res.values()])
+                return Obj("opresult", {"fmt": f"{name}({', '.join(str(id(o)) for o in ops)})"})
+            return PyFunc(apply, f"algebra.{name}", True)
+        alg.methods["__getattr__"] = opattr
+        x = mk(alg, keys, "a")
+        y = mk(alg, (1, 6), "b")
+        roles = {"self": x, "other": y}
+        it = make_interp(repo)
+        it.algebra = alg
+        args = [y] if len(order) == 2 else []
+        try:
+            got = it.call_function(entry.node, [x] + args, {}, {}, "multivector")
+            want = it.call(opattr(op), [roles[r] for r in order], {})
+        except NoValue as exc:
+            raise Unknown(c, f"cannot evaluate the Python body: {exc}", entry.node)
+        same = (coeffs(got) == coeffs(want)) if coeffs(want) is not None else (str(got) == str(want))
+        if isinstance(got, Unk):
+            raise Unknown(c, f"evaluates to {got!r}", entry.node)
+        if not same:
+            g = sorted({grade(k) for k in keys})
+            ctx.violation(c, f"MultiVector.{meth} on an operand of grades {g} does not equal the documented operator "
+                             f"{op!r} applied to {order}: got {coeffs(got) if coeffs(got) is not None else got!s}, expected "
+                             f"{coeffs(want) if coeffs(want) is not None else want!s}", entry.node)
+            return
+    ctx.ok(c, entry.node, operator=op, via="python body, evaluated on homogeneous operands of every grade 0..7 and a mixed one")
+
+
 @rule("C04.registry-names", props=["C04", "C06"], min_instances=60, mutants=[
+    ("single-grade shortcut of reverse() forgets the period 4", ("multivector", "    def reverse(self):\n        \"\"\" Reversion \"\"\"\n        return self.algebra.reverse(self)", "    def reverse(self):\n        \"\"\" Reversion \"\"\"\n        if len(self.grades) == 1:\n            return -self if self.grades[0] in (2, 3) else self\n        return self.algebra.reverse(self)")),
     ("~ bound to conjugate", ("multivector", "    def __invert__(self):\n        \"\"\" Reversion \"\"\"\n        return self.algebra.reverse(self)", "    def __invert__(self):\n        \"\"\" Reversion \"\"\"\n        return self.algebra.conjugate(self)")),
     ("lc method calls rc", ("multivector", "    def lc(self, other):\n        return self.algebra.lc(self, other)", "    def lc(self, other):\n        return self.algebra.rc(self, other)")),
 ])
@@ -155,7 +218,7 @@ def registry_names(ctx):
         if e is None:
             ctx.violation(c, f"documented method/operator {meth} is not defined on MultiVector", None, module="multivector")
         elif e.kind != "op":
-            raise Unknown(c, "has a Python body the surface resolver cannot classify", e.node)
+            _check_python_bodied_method(ctx, repo, c, meth, op, order, e)
         elif (e.op, e.order) == (op, order):
             ctx.ok(c, e.node, operator=e.op, order=e.order)
         else:
